@@ -758,9 +758,35 @@ REQUIRED_CLASSES = [f"adjust_{branch}_{how}" for branch in BRANCHES for how in (
 ]
 
 
+def _memoised(body):
+    """ The layout of one and the same region can differ from call to call: Region.get_unique_protoclusters sorts a
+        set of features (hashed by address) with a comparison that is not a total order.  That is C17's subject; here
+        it would only make Hypothesis report a violating case as flaky (a harness error instead of a violation), so
+        within one process the first outcome observed for a spec is the outcome of that spec. """
+    from vlib.runner import digest
+    seen: dict = {}
+
+    def wrapper(spec: dict):
+        key = digest(spec)
+        if key in seen:
+            failed, payload = seen[key]
+            if failed:
+                raise Violation(*payload)
+            return payload
+        try:
+            result = body(spec)
+        except Violation as vio:
+            seen[key] = (True, (vio.clause, vio.detail))
+            raise
+        seen[key] = (False, result)
+        return result
+    return wrapper
+
+
 def run(ctx) -> None:
     from vlib.runner import HarnessError
-    ctx.hyp("layout", layouts(), max_examples=ctx.pick(1600, 32000), shards=ctx.pick(8, 16))
+    ctx.hyp("layout", layouts(), max_examples=ctx.pick(1600, 32000), shards=ctx.pick(8, 16),
+            body=_memoised(check_layout))
     stats = ctx.stats["layout"]
     if not stats.violations:
         floor = ctx.pick(3, 40)
